@@ -122,7 +122,7 @@ func describe(property string) core.Description {
 		Assumptions: []string{"Layer 1: exactly one stimulus is applied per quiescent point (actor-level schedule); interleavings inside the propagation of one stimulus are not explored",
 			"simulation binaries use Go >= 1.23 synchronous timer channels (main module go 1.26.8), the shipped binary is built from a go 1.16 module",
 			"chain events reach the provider in order and at most once (may be lost or delayed)", "sampling: held on everything explored, not a proof"},
-		SimTimeUnit: "ms", QuickRuns: 20000, ThoroughRuns: 1200000, QuickBudgetS: 100, ThoroughBudget: 1200,
+		SimTimeUnit: "ms", QuickRuns: 20000, ThoroughRuns: 1200000, QuickBudgetS: 100, ThoroughBudget: 900,
 	}
 	switch property {
 	case "C13":
